@@ -10,6 +10,9 @@
 (*   lam(x,body,arg) ((x: int) -> body)(arg)                               *)
 (*   mat(s,x,ba,y,bb)  match E.mk(sel, s) { A(x) -> ba, B(y) -> bb, }      *)
 (*   mor(s,x,body)   match E.mk(sel, s) { A(x) | B(x) -> body, }           *)
+(*   mor3(s,x,body)  match (G.mk(sel, s), 0) {                             *)
+(*                     (U(x), _) | (V(x) | W(x), _) -> body, }             *)
+(*                   (an or-pattern nested in a later alternative)         *)
 (*   ifl(x,s,th,el)  if let Some(x) = Opt.mk(sel, s) { th } else { el }    *)
 (* and the items of a block                                                *)
 (*   let(x,init)     let x = init;       (x = "_": let _ = T.show(init);)  *)
@@ -44,7 +47,9 @@
 (***************************************************************************)
 EXTENDS Naturals, Sequences, FiniteSets, TLC
 
-CONSTANTS Names       \* pool of variable names, e.g. {"a", "b"}
+CONSTANTS Names,        \* pool of variable names, e.g. {"a", "b"}
+          NestedOrFixed \* which revision of ssa_analysis.rs Alg transcribes: TRUE = or-patterns nested in
+                        \* a later alternative are visited (the check finds out by probing the real code)
 
 Wild == "_"
 Lit  == [k |-> "lit"]
@@ -62,15 +67,17 @@ NOcc(t) ==
     [] t.k = "lam"  -> 1 + NOcc(t.body) + NOcc(t.arg)
     [] t.k = "mat"  -> NOcc(t.scrut) + NB(t.x) + NOcc(t.ba) + NB(t.y) + NOcc(t.bb)
     [] t.k = "mor"  -> NOcc(t.scrut) + 2 + NOcc(t.body)
+    [] t.k = "mor3" -> NOcc(t.scrut) + 3 + NOcc(t.body)
     [] t.k = "ifl"  -> 1 + NOcc(t.scrut) + NOcc(t.th) + NOcc(t.el)
     [] t.k = "let"  -> NB(t.x) + NOcc(t.init)
     [] t.k \in {"ltup", "lstr"} -> NB(t.x) + NB(t.y) + NOcc(t.i1) + NOcc(t.i2)
 NItems(its, i) == IF i > Len(its) THEN 0 ELSE NOcc(its[i]) + NItems(its, i + 1)
 
 \* a binding occurrence with scope lo..hi (empty when lo > hi); nothing for the wildcard
-Bd(x, lo, hi) == IF x = Wild THEN <<>> ELSE <<[n |-> x, b |-> "bind", lo |-> lo, hi |-> hi]>>
-Us(x)  == <<[n |-> x, b |-> "use", lo |-> 0, hi |-> 0]>>
-Alt(x) == <<[n |-> x, b |-> "alt", lo |-> 0, hi |-> 0]>>
+\* (c: the construct the occurrence belongs to)
+Bd(x, lo, hi, c) == IF x = Wild THEN <<>> ELSE <<[n |-> x, b |-> "bind", lo |-> lo, hi |-> hi, c |-> c]>>
+Us(x)  == <<[n |-> x, b |-> "use", lo |-> 0, hi |-> 0, c |-> "use"]>>
+Alt(x) == <<[n |-> x, b |-> "alt", lo |-> 0, hi |-> 0, c |-> "alt"]>>
 
 \* OccE(t, base): the occurrences of t; the first one has index base + 1
 RECURSIVE OccE(_, _), OccItems(_, _, _, _)
@@ -81,21 +88,25 @@ OccE(t, base) ==
                       \o OccE(t.fin, base + NItems(t.items, 1))
     [] t.k = "lam" ->
          LET nb == NOcc(t.body)
-         IN Bd(t.x, base + 2, base + 1 + nb) \o OccE(t.body, base + 1) \o OccE(t.arg, base + 1 + nb)
+         IN Bd(t.x, base + 2, base + 1 + nb, "lam") \o OccE(t.body, base + 1) \o OccE(t.arg, base + 1 + nb)
     [] t.k = "mat" ->
          LET s == NOcc(t.scrut)  px == NB(t.x)  na == NOcc(t.ba)  py == NB(t.y)  nb == NOcc(t.bb)
          IN OccE(t.scrut, base)
-            \o Bd(t.x, base + s + px + 1, base + s + px + na) \o OccE(t.ba, base + s + px)
-            \o Bd(t.y, base + s + px + na + py + 1, base + s + px + na + py + nb)
+            \o Bd(t.x, base + s + px + 1, base + s + px + na, "mat") \o OccE(t.ba, base + s + px)
+            \o Bd(t.y, base + s + px + na + py + 1, base + s + px + na + py + nb, "mat")
             \o OccE(t.bb, base + s + px + na + py)
     [] t.k = "mor" ->
          LET s == NOcc(t.scrut)  nb == NOcc(t.body)
          \* the scope of the first alternative's variable: the later alternative and the arm body
-         IN OccE(t.scrut, base) \o Bd(t.x, base + s + 2, base + s + 2 + nb) \o Alt(t.x)
+         IN OccE(t.scrut, base) \o Bd(t.x, base + s + 2, base + s + 2 + nb, "mor") \o Alt(t.x)
             \o OccE(t.body, base + s + 2)
+    [] t.k = "mor3" ->
+         LET s == NOcc(t.scrut)  nb == NOcc(t.body)
+         IN OccE(t.scrut, base) \o Bd(t.x, base + s + 2, base + s + 3 + nb, "mor3") \o Alt(t.x) \o Alt(t.x)
+            \o OccE(t.body, base + s + 3)
     [] t.k = "ifl" ->
          LET s == NOcc(t.scrut)  nt == NOcc(t.th)
-         IN Bd(t.x, base + 1 + s + 1, base + 1 + s + nt) \o OccE(t.scrut, base + 1)
+         IN Bd(t.x, base + 1 + s + 1, base + 1 + s + nt, "ifl") \o OccE(t.scrut, base + 1)
             \o OccE(t.th, base + 1 + s) \o OccE(t.el, base + 1 + s + nt)
 \* items i.. of a block; `cur` occurrences precede item i, the block's last occurrence is `end`
 OccItems(its, i, cur, end) ==
@@ -103,8 +114,8 @@ OccItems(its, i, cur, end) ==
   ELSE LET it == its[i]
            n  == NOcc(it)
            me == IF it.k = "let"
-                 THEN Bd(it.x, cur + n + 1, end) \o OccE(it.init, cur + NB(it.x))
-                 ELSE Bd(it.x, cur + n + 1, end) \o Bd(it.y, cur + n + 1, end)
+                 THEN Bd(it.x, cur + n + 1, end, "let") \o OccE(it.init, cur + NB(it.x))
+                 ELSE Bd(it.x, cur + n + 1, end, it.k) \o Bd(it.y, cur + n + 1, end, it.k)
                       \o OccE(it.i1, cur + NB(it.x) + NB(it.y))
                       \o OccE(it.i2, cur + NB(it.x) + NB(it.y) + NOcc(it.i1))
        IN me \o OccItems(its, i + 1, cur + n, end)
@@ -113,7 +124,7 @@ OccItems(its, i, cur, end) ==
 Occ(f) ==
   LET np == Len(f.params)
       nb == NOcc(f.body)
-  IN [i \in 1..np |-> [n |-> f.params[i], b |-> "bind", lo |-> np + 1, hi |-> np + nb]]
+  IN [i \in 1..np |-> [n |-> f.params[i], b |-> "bind", lo |-> np + 1, hi |-> np + nb, c |-> "param"]]
      \o OccE(f.body, np)
 
 ---------------------------------------------------------------------------
@@ -173,6 +184,13 @@ AlgE(t, base, s) ==
              s1 == AlgE(t.scrut, base, s)
              s2 == UseId(Define(Push(s1), t.x, base + sn + 1), t.x, base + sn + 2)
          IN Pop(AlgE(t.body, base + sn + 2, s2))
+    [] t.k = "mor3" ->     \* (U(x), _) | (V(x) | W(x), _): visit_matching_pattern_bindings_as_uses does
+                           \* nothing for an Or nested in a later alternative unless NestedOrFixed
+         LET sn == NOcc(t.scrut)
+             s1 == AlgE(t.scrut, base, s)
+             s2 == Define(Push(s1), t.x, base + sn + 1)
+             s3 == IF NestedOrFixed THEN UseId(UseId(s2, t.x, base + sn + 2), t.x, base + sn + 3) ELSE s2
+         IN Pop(AlgE(t.body, base + sn + 3, s3))
     [] t.k = "ifl" ->      \* Guard: the guard expression first; push, pattern, block e1, pop; then e2
          LET sn == NOcc(t.scrut)  nt == NOcc(t.th)
              s1 == AlgE(t.scrut, base + 1, s)
@@ -198,6 +216,19 @@ Alg(f) ==
   LET s0 == [stack |-> <<{}, {}, {}>>, bad |-> FALSE, m |-> {}]
       s1 == DefineAll(Push(Push(s0)), f.params, 1)
   IN Pop(Pop(AlgE(f.body, Len(f.params), s1)))
+
+\* does the structure contain an or-pattern nested in a later alternative?
+RECURSIVE HasMor3(_)
+HasMor3(t) ==
+  CASE t.k \in {"lit", "use"} -> FALSE
+    [] t.k = "mor3" -> TRUE
+    [] t.k = "blk"  -> HasMor3(t.fin) \/ \E j \in DOMAIN t.items : HasMor3(t.items[j])
+    [] t.k = "lam"  -> HasMor3(t.body) \/ HasMor3(t.arg)
+    [] t.k = "mat"  -> HasMor3(t.scrut) \/ HasMor3(t.ba) \/ HasMor3(t.bb)
+    [] t.k = "mor"  -> HasMor3(t.scrut) \/ HasMor3(t.body)
+    [] t.k = "ifl"  -> HasMor3(t.scrut) \/ HasMor3(t.th) \/ HasMor3(t.el)
+    [] t.k = "let"  -> HasMor3(t.init)
+    [] t.k \in {"ltup", "lstr"} -> HasMor3(t.i1) \/ HasMor3(t.i2)
 
 \* [RT] the walk accepts exactly the well-scoped structures and computes the specified map
 AlgEqSem(f) ==
